@@ -35,6 +35,23 @@ def write_evidence(pid, ev):
     with open(os.path.join(d, pid + '.json'), 'w') as f:
         json.dump(ev, f, indent=1)
 
+def perturb_noop_config(cases, rng, prob=0.15):
+    """socket histories: with probability `prob` insert one `sn:<wbs>:<max>:<rbs>` operation - set_config re-applying the
+    write-buffer sizes the connection already has and changing only read_buffer_size (which merely sizes an allocation).
+    It must change nothing: the model runs it as OpSetBuf with unchanged values, the monitors do not see it at all."""
+    out = []
+    for c in cases:
+        if (c.startswith('S ') or c.startswith('SI ')) and rng.random() < prob:
+            f = c.split(' ')
+            ops = [] if f[11] in ('-', '') else f[11].split(',')
+            valid = f[4] == 'inf' or int(f[3]) < int(f[4])
+            if ops and valid and not any(o.startswith('sb:') or o.startswith('sn:') for o in ops):
+                ops.insert(rng.randint(0, len(ops)), 'sn:%s:%s:%d' % (f[3], f[4], rng.choice([0, 1, 7, 64, 4096, 131072])))
+                f[11] = ','.join(ops)
+                c = ' '.join(f)
+        out.append(c)
+    return out
+
 def safe_monitor(prop, line, trace, mline):
     """a monitor that cannot even parse the implementation's trace has met behaviour it was not written for: that is reported, not crashed on"""
     try:
@@ -117,6 +134,7 @@ def check_property(pid, tier, seed):
     # ---- 2. correspondence + monitors -----------------------------------------------------
     rng = random.Random(seed)
     cases = prop.generate(tier, rng)          # list of case lines; ids must be unique
+    cases = perturb_noop_config(cases, random.Random(seed * 7919 + 13))
     dist = prop.distribution(cases)
     workdir = os.path.join(build.WORK, pid)
     mismatches, monitor_hits, known_hits = [], [], []
